@@ -10,7 +10,16 @@
 //! recovered from the log after quiescence with the state readers last saw, in stress mode
 //! (seeded jitter at the `put_durable:after_log` / `delete_durable:after_log` hook points) and in a
 //! deterministic two-thread schedule that parks one writer between its log append and its
-//! in-memory apply while the other writer runs.
+//! in-memory apply while the other writer runs. The `walfault` rounds put the durable log itself
+//! under a fault: the store is opened with a small `max_size_bytes` and `auto_rotate = false`, so
+//! that from some moment on the log REFUSES records (which ones depends on their size: keys carry
+//! 0-160 padding characters, values are small or carry a 384-dim vector). 2-8 threads run the same
+//! mixed workload while the log fills up and again on the (nearly) full log; a write that returned
+//! an error stays open in the history (it may or may not have taken effect). At each quiescent
+//! point the files a crash would leave (log + latest checkpoint) are recovered and must equal the
+//! state readers see: whatever is in memory is in the log and vice versa, also for writes the log
+//! refused. A sequential probe then issues one durable delete or put per contended key on the full
+//! log (acknowledged => visible; refused => counted) and the comparison is repeated.
 
 use common::lin::{self, Event, Op, Verdict};
 use common::*;
@@ -153,6 +162,14 @@ struct RoundCfg {
     jitter: bool,
     /// values carry FAT_FIELDS padding fields
     fat: bool,
+    /// the durable log of this round may refuse records (walfault rounds): a delete that returned an
+    /// error is kept as an open operation (it may or may not have taken effect) instead of being
+    /// treated as "had no effect"
+    refusing: bool,
+    /// durable rounds: a thread takes a checkpoint instead of an operation with probability 1/n (0 = never)
+    checkpoint_one_in: u32,
+    /// first write counter of every thread (keeps the write ids of two phases on one store apart)
+    ctr_base: u64,
 }
 
 fn gen_round(rng: &mut Rng) -> RoundCfg {
@@ -165,7 +182,7 @@ fn gen_round(rng: &mut Rng) -> RoundCfg {
         _ => None,
     };
     let fat = durable.is_none() && rng.chance(1, 6);
-    RoundCfg { keys, threads: 2 + rng.below(7), ops_per_thread: 6 + rng.below(14), durable, jitter: rng.bool(), fat }
+    RoundCfg { keys, threads: 2 + rng.below(7), ops_per_thread: 6 + rng.below(14), durable, jitter: rng.bool(), fat, refusing: false, checkpoint_one_in: 14, ctr_base: 0 }
 }
 
 fn shapes_for(key: &str, rng: &mut Rng) -> Shape {
@@ -190,6 +207,7 @@ fn run_threads(store: &Arc<TensorStore>, cfg: &RoundCfg, seed: u64, snap: Option
     let jitter = cfg.jitter;
     let fat = cfg.fat;
     let n_ops = cfg.ops_per_thread;
+    let (refusing, checkpoint_one_in, ctr_base) = (cfg.refusing, cfg.checkpoint_one_in, cfg.ctr_base);
     let handles: Vec<_> = (0..cfg.threads)
         .map(|t| {
             let store = store.clone();
@@ -205,14 +223,14 @@ fn run_threads(store: &Arc<TensorStore>, cfg: &RoundCfg, seed: u64, snap: Option
                 let mut recs: Vec<Rec> = Vec::new();
                 let mut anomalies: Vec<(String, String)> = Vec::new();
                 let mut ops: BTreeMap<&'static str, u64> = BTreeMap::new();
-                let mut ctr = 0u64;
+                let mut ctr = ctr_base;
                 barrier.wait();
                 for _ in 0..n_ops {
                     let ki = rng.below(keys.len());
                     let key = &keys[ki];
                     // durable rounds: now and then a thread takes a checkpoint while the others write
                     if let Some(sp) = snap.as_ref() {
-                        if rng.chance(1, 14) {
+                        if checkpoint_one_in > 0 && rng.chance(1, checkpoint_one_in) {
                             let _ = store.checkpoint(sp);
                             *ops.entry("checkpoint").or_insert(0) += 1;
                             continue;
@@ -229,6 +247,9 @@ fn run_threads(store: &Arc<TensorStore>, cfg: &RoundCfg, seed: u64, snap: Option
                             let r = if durable { store.put_durable(key.clone(), val) } else { store.put(key.clone(), val) };
                             let res = clock.fetch_add(1, Ordering::SeqCst);
                             *ops.entry("put").or_insert(0) += 1;
+                            if r.is_err() {
+                                *ops.entry("put_returned_error").or_insert(0) += 1;
+                            }
                             // a failed put may or may not have taken effect: keep it open
                             recs.push(Rec { key: ki, ev: Event { proc_id: t as u32, op: Op::Put(wid), inv, res: if r.is_ok() { res } else { u64::MAX } } });
                         }
@@ -259,6 +280,12 @@ fn run_threads(store: &Arc<TensorStore>, cfg: &RoundCfg, seed: u64, snap: Option
                             // read of absence only when it failed.
                             match r {
                                 Ok(()) => recs.push(Rec { key: ki, ev: Event { proc_id: t as u32, op: Op::Delete(None), inv, res } }),
+                                // walfault rounds: the error may be a refusal by the log; such a delete
+                                // may or may not have taken effect: keep it open
+                                Err(_) if refusing => {
+                                    *ops.entry("delete_returned_error").or_insert(0) += 1;
+                                    recs.push(Rec { key: ki, ev: Event { proc_id: t as u32, op: Op::Delete(None), inv, res: u64::MAX } });
+                                }
                                 Err(_) => { /* no effect claimed, nothing recorded */ }
                             }
                         }
@@ -640,6 +667,276 @@ fn sync_round(case_seed: u64, r: &mut Report, args: &Args) {
         }
     }
     r.eval(hash_combine(case_seed, 0x5C), true);
+}
+
+/// WAL configuration of the walfault rounds: the log refuses every record that would make it
+/// larger than `limit` bytes (no rotation).
+fn wal_cfg_limited(mode: &str, limit: u64) -> WalConfig {
+    let mut c = wal_cfg(mode);
+    c.max_size_bytes = limit;
+    c.auto_rotate = false;
+    c
+}
+
+/// Crash at quiescence while the store stays open: sync, read the live state, copy the files a
+/// crash would leave (log, latest checkpoint) and recover from the copy.
+/// Ok(None) = recovered state equals the live state, Ok(Some(diff)) = it differs, Err = recover failed.
+fn crash_image_differs(store: &TensorStore, wal_path: &std::path::Path, snap_path: &std::path::Path, image_dir: &std::path::Path, cfg: &WalConfig) -> Result<Option<String>, String> {
+    let _ = store.sync();
+    let live = view(store);
+    let _ = std::fs::create_dir_all(image_dir);
+    let (iw, is) = (image_dir.join("image.wal"), image_dir.join("image.snap"));
+    let _ = std::fs::remove_file(&iw);
+    let _ = std::fs::remove_file(&is);
+    if wal_path.exists() {
+        std::fs::copy(wal_path, &iw).map_err(|e| format!("#harness: copy log: {}", e))?;
+    }
+    if snap_path.exists() {
+        std::fs::copy(snap_path, &is).map_err(|e| format!("#harness: copy snapshot: {}", e))?;
+    }
+    match TensorStore::recover(&iw, cfg, Some(&is)) {
+        Ok(rec) => {
+            let v = view(&rec);
+            Ok(if v == live { None } else { Some(view_diff(&live, &v)) })
+        }
+        Err(e) => Err(format!("{}", e)),
+    }
+}
+
+/// The durable log under a fault it can report: a size limit without rotation, so that from some
+/// moment on appends are refused (which ones depends on the record size). Concurrent mixed
+/// workload while the log fills, again on the (nearly) full log, then a sequential probe; at every
+/// quiescent point what a crash would leave must recover to the state readers see.
+fn walfault_round(case_seed: u64, r: &mut Report, args: &Args) {
+    let mut rng = Rng::new(case_seed);
+    let scratch = args.scratch_dir("c11w");
+    let wal_path = scratch.join("c11w.wal");
+    let snap_path = scratch.join("c11w.snap");
+    let image_dir = scratch.join("image");
+    let replay = json!({"part": "walfault", "case_seed": case_seed});
+    // contended keys of the classes that are logged; half of them with a long name, so that the
+    // records of their deletes differ in size (a nearly full log refuses the long ones first)
+    let classes = ["k:", "emb:", "emb:", "node:", "table:", "edge:"];
+    let nkeys = 1 + rng.below(4);
+    let keys: Vec<String> = (0..nkeys)
+        .map(|i| {
+            let pad = if rng.bool() { 0 } else { 1 + rng.below(160) };
+            format!("{}c{}{}", rng.pick(&classes), i, "x".repeat(pad))
+        })
+        .collect();
+    let mode = if rng.bool() { "manual" } else { "immediate" };
+    let limit = *rng.pick(&[300u64, 600, 1_200, 2_500, 5_000, 10_000]) + rng.below(300) as u64;
+    let wcfg = wal_cfg_limited(mode, limit);
+    let store = match TensorStore::open_durable(&wal_path, wcfg.clone()) {
+        Ok(s) => Arc::new(s),
+        Err(e) => {
+            r.inconclusive(&format!("open_durable: {}", e));
+            return;
+        }
+    };
+    let describe = |keys: &Vec<String>| keys.iter().map(|k| trunc(k, 14)).collect::<Vec<_>>();
+    let what = format!("[keys {:?}, log limit {} bytes without rotation, sync mode {}]", describe(&keys), limit, mode);
+    // the register value of every contended key, read at a quiescent point
+    let registers = |store: &TensorStore| -> Vec<Option<u64>> { keys.iter().map(|k| store.get(k).ok().and_then(|d| decode_value(&d).ok())).collect() };
+
+    // -- prefill: most rounds start with the keys present; some move them into a checkpoint so that
+    //    the log starts empty
+    let mut seq_ctr = 0u64;
+    if rng.chance(3, 4) {
+        for k in &keys {
+            seq_ctr += 1;
+            let shape = shapes_for(k, &mut rng);
+            let _ = store.put_durable(k.clone(), make_value(wid_for(8, seq_ctr, shape), shape));
+        }
+        if rng.bool() {
+            let _ = store.checkpoint(&snap_path);
+        }
+    }
+
+    let mut refused_writes = 0u64;
+    let mut all_recs: Vec<Rec> = Vec::new();
+    let mut compare = |store: &TensorStore, when: &str, r: &mut Report| -> bool {
+        match crash_image_differs(store, &wal_path, &snap_path, &image_dir, &wcfg) {
+            Ok(None) => {
+                r.count("walfault_crash_images_compared", 1);
+                true
+            }
+            Ok(Some(diff)) => {
+                r.violation(
+                    "durable-order:recovered-state-differs-from-last-seen:log-refused-writes",
+                    format!("{}: what a crash at this quiescent point leaves (log + latest checkpoint) recovers to a different state than readers see (- only in memory, + only recovered, ~ differs): {} {}", when, trunc(&diff, 500), what),
+                    replay.clone(),
+                );
+                false
+            }
+            Err(e) if e.starts_with("#harness") => {
+                r.inconclusive(&format!("walfault: {}", trunc(&e, 80)));
+                false
+            }
+            Err(e) => {
+                r.violation("durable-order:recover-failed:log-refused-writes", format!("{}: recover failed: {} {}", when, e, what), replay.clone());
+                false
+            }
+        }
+    };
+
+    // -- two concurrent phases: the log fills up; then (after filler writes, in most rounds) the
+    //    same workload on the full log
+    for phase in 0..2u64 {
+        if phase == 1 && rng.chance(3, 4) {
+            // filler: small writes of other keys until the log refuses one
+            for i in 0..4_000u64 {
+                let fk = format!("fill:{}{}", i, "y".repeat(rng.below(24)));
+                if store.put_durable(fk, make_value(wid_for(8, 100_000 + i, Shape::Plain), Shape::Plain)).is_err() {
+                    r.count("walfault_rounds_filled_until_refusal", 1);
+                    break;
+                }
+            }
+        }
+        let initial = registers(&store);
+        let cfg = RoundCfg {
+            keys: keys.clone(),
+            threads: 2 + rng.below(7),
+            ops_per_thread: 6 + rng.below(12),
+            durable: Some(mode),
+            jitter: rng.bool(),
+            fat: false,
+            refusing: true,
+            checkpoint_one_in: *rng.pick(&[0u32, 0, 40, 14]),
+            ctr_base: phase * 1_000,
+        };
+        let out = run_threads(&store, &cfg, rng.next_u64(), Some(snap_path.clone()));
+        for (k, v) in &out.ops {
+            r.count(&format!("walfault_ops_{}", k), *v);
+        }
+        refused_writes += out.ops.get("put_returned_error").copied().unwrap_or(0);
+        r.count("walfault_events_recorded", out.recs.len() as u64);
+        for (sig, d) in out.anomalies.iter().take(3) {
+            r.violation(sig.clone(), format!("{} {}", d, what), replay.clone());
+        }
+        for (ki, key) in keys.iter().enumerate() {
+            let mut evs: Vec<Event> = out.recs.iter().filter(|x| x.key == ki).map(|x| x.ev).collect();
+            if evs.is_empty() {
+                continue;
+            }
+            if evs.len() > 128 {
+                r.inconclusive("history longer than 128 ops on one key");
+                continue;
+            }
+            // open operations first: the search then tries the completed ones first
+            evs.sort_by_key(|e| (e.res != u64::MAX, e.inv));
+            match lin::check_model(&evs, initial[ki], 400_000, false) {
+                Verdict::Linearizable => r.count("walfault_key_histories_linearizable", 1),
+                Verdict::Inconclusive => r.inconclusive("linearizability search budget exhausted (walfault)"),
+                Verdict::NotLinearizable => {
+                    evs.sort_by_key(|e| e.inv);
+                    let class = if key.starts_with("emb:") { "emb-key" } else { "metadata-key" };
+                    r.violation(
+                        format!("history-not-linearizable:{}:log-refused-writes", class),
+                        format!("key {} (phase {}, {} threads, register before the phase {:?}; operations that returned an error are open = may or may not have taken effect): no sequential order explains {:?} {}", trunc(key, 14), phase, cfg.threads, initial[ki], evs, what),
+                        replay.clone(),
+                    );
+                }
+            }
+        }
+        all_recs.extend(out.recs);
+        if !compare(&store, if phase == 0 { "after the first concurrent phase" } else { "after the concurrent phase on the full log" }, r) {
+            return;
+        }
+    }
+
+    // -- sequential probe on the log as the threads left it: one durable write per contended key.
+    //    Acknowledged => visible to the next read. Refused => only counted; whether it is in memory
+    //    or not, log and memory must agree (the comparison below).
+    let mut order: Vec<usize> = (0..keys.len()).collect();
+    rng.shuffle(&mut order);
+    let mut probe = Vec::new();
+    for ki in order {
+        let k = &keys[ki];
+        let present = store.exists(k);
+        if rng.chance(2, 3) {
+            match store.delete_durable(k) {
+                Ok(()) => {
+                    r.count("walfault_probe_deletes_acknowledged", 1);
+                    if store.exists(k) || store.get(k).is_ok() {
+                        r.violation("walfault:acknowledged-durable-delete-not-visible", format!("single thread: delete_durable({}) returned Ok, the next exists/get still finds the key {}", trunc(k, 14), what), replay.clone());
+                        return;
+                    }
+                    probe.push(format!("delete {} ok", trunc(k, 10)));
+                }
+                Err(_) if present => {
+                    refused_writes += 1;
+                    r.count("walfault_probe_deletes_of_present_key_refused", 1);
+                    if !store.exists(k) {
+                        r.count("walfault_probe_refused_delete_took_effect_in_memory", 1);
+                    }
+                    probe.push(format!("delete {} (present) refused", trunc(k, 10)));
+                }
+                Err(_) => r.count("walfault_probe_deletes_of_absent_key_failed", 1),
+            }
+        } else {
+            seq_ctr += 1;
+            let shape = shapes_for(k, &mut rng);
+            let wid = wid_for(8, 10_000 + seq_ctr, shape);
+            match store.put_durable(k.clone(), make_value(wid, shape)) {
+                Ok(()) => {
+                    r.count("walfault_probe_puts_acknowledged", 1);
+                    match store.get(k).map(|d| decode_value(&d)) {
+                        Ok(Ok(w)) if w == wid => {}
+                        other => {
+                            r.violation(
+                                "walfault:acknowledged-durable-put-not-visible",
+                                format!("single thread: put_durable({}) of write {} returned Ok, the next get returned {:?} {}", trunc(k, 14), wid, other.map(|x| x.map_err(|e| trunc(&e, 120))).map_err(|_| "NotFound"), what),
+                                replay.clone(),
+                            );
+                            return;
+                        }
+                    }
+                    probe.push(format!("put {} ok", trunc(k, 10)));
+                }
+                Err(_) => {
+                    refused_writes += 1;
+                    r.count("walfault_probe_puts_refused", 1);
+                    probe.push(format!("put {} refused", trunc(k, 10)));
+                }
+            }
+        }
+    }
+    if !compare(&store, &format!("after the sequential probe {:?}", probe), r) {
+        return;
+    }
+    // -- and the real thing: the store is dropped, the files themselves are recovered
+    let live = view(&store);
+    drop(compare);
+    drop(registers);
+    drop(store);
+    match TensorStore::recover(&wal_path, &wcfg, Some(&snap_path)) {
+        Ok(rec) => {
+            let v = view(&rec);
+            r.count("walfault_rounds_recovered", 1);
+            if v != live {
+                r.violation(
+                    "durable-order:recovered-state-differs-from-last-seen:log-refused-writes",
+                    format!("after the round (probe {:?}) the files recover to a different state than memory held: {} {}", probe, trunc(&view_diff(&live, &v), 500), what),
+                    replay.clone(),
+                );
+                return;
+            }
+        }
+        Err(e) => {
+            r.violation("durable-order:recover-failed:log-refused-writes", format!("recover after the round failed: {} {}", e, what), replay.clone());
+            return;
+        }
+    }
+    r.count("walfault_writes_refused", refused_writes);
+    let nontrivial = refused_writes > 0 && overlapped(&all_recs);
+    if refused_writes > 0 {
+        r.count("walfault_rounds_with_refused_writes", 1);
+    }
+    r.eval(order_hash(&all_recs) ^ 0xFA17, nontrivial);
+    if r.want_sample() && nontrivial && rng.chance(1, 40) {
+        r.sample(json!({"part": "walfault", "keys": describe(&keys), "log_limit_bytes": limit, "sync_mode": mode, "writes_refused": refused_writes, "probe": probe}));
+    }
 }
 
 /// Sequential sanity of the register semantics the linearizability model assumes (one thread):
@@ -1100,6 +1397,7 @@ fn main() {
             match rp["part"].as_str().unwrap_or("stress") {
                 "parked" => parked_round(s, &mut total, &args),
                 "sync" => sync_round(s, &mut total, &args),
+                "walfault" => walfault_round(s, &mut total, &args),
                 "engines" => engine_round(s, &mut total),
                 "fresh" => fresh_keys_round(s, &mut total),
                 "bigscan" => bigscan_round(s, &mut total),
@@ -1131,6 +1429,12 @@ fn main() {
             let n = args.by_tier(40u64, 600u64);
             let a2 = args.clone();
             let rep = par_cases(args.threads.min(8), args.seed ^ 0x5C, n, args.budget(20, 200), move |_i, s, r| sync_round(s, r, &a2));
+            total.merge(rep);
+        }
+        if part == "all" || part == "walfault" {
+            let n = args.by_tier(320u64, 16_000u64);
+            let a2 = args.clone();
+            let rep = par_cases(outer, args.seed ^ 0xFA, n, args.budget(15, 240), move |_i, s, r| walfault_round(s, r, &a2));
             total.merge(rep);
         }
         if part == "all" || part == "engines" {
